@@ -7,7 +7,7 @@ PID=$1; VAR=$2; SRC=$3
 W=/tmp/confirm_wt
 export CARGO_NET_OFFLINE=true CARGO_TARGET_DIR=$W/target
 if [ ! -d $W ]; then git -C /repo worktree add --detach $W HEAD -q || exit 2; fi
-cd $W && git checkout -q -- . && rm -rf tests/demo_seeded.rs
+cd $W && git checkout -q -- . && git checkout -q --detach $(git -C /repo rev-parse HEAD) && rm -rf tests/demo_seeded.rs
 git apply --check $SRC/patch.diff || { echo "$PID$VAR: patch does not apply"; exit 1; }
 mkdir -p tests; cp $SRC/demo.rs tests/demo_seeded.rs
 # original: demo passes
